@@ -76,6 +76,7 @@ func ruleC20(c *Check) {
 	c.fractionValidators("C20.3")
 	c.panickingConversions(fs)
 	c.panicCallees(fs, r)
+	c.decodedTimesEncodable(fs)
 	c.moduleWiring("C20.4", map[string]bool{"endblock": true})
 	// the callbacks of an owning module are called without a nil test: contexts are created only for modules that registered both
 	c.constructorRules("C20.3", map[string]bool{"callbacks": true})
@@ -1298,4 +1299,152 @@ func (c *Check) panicCallees(fs []*Func, r *reachInfo) {
 	}
 	c.Sites += n
 	c.req(n >= 1, "C20.3", "panic-callees", token.NoPos, fmt.Sprintf("%d functions whose error a caller turns into a panic", n))
+}
+
+// decodedTimesEncodable (C20.3): records are written to the store with the codec's Must-marshal, which panics when a
+// time.Time field lies outside what a protobuf timestamp can hold (before 0001-01-01 or after 9999-12-31) — while the JSON
+// form of a time, which is all that the "date-time" format of a schema checks, also covers the year 0000. A function in
+// handler-reachable code that decodes JSON text into a type with time.Time fields therefore has, for every such field, a
+// rejecting exit on a test of that field, and every committed path that walks the decoded list has passed a test of it.
+// (What the test compares with is not decided: removing it is reported, weakening it is not.)
+func (c *Check) decodedTimesEncodable(fs []*Func) {
+	type tf struct{ strct, fld string }
+	var timeFields func(t types.Type, depth int, seen map[string]bool) []tf
+	timeFields = func(t types.Type, depth int, seen map[string]bool) []tf {
+		if depth > 5 {
+			return nil
+		}
+		switch u := types.Unalias(t).(type) {
+		case *types.Pointer:
+			return timeFields(u.Elem(), depth+1, seen)
+		case *types.Slice:
+			return timeFields(u.Elem(), depth+1, seen)
+		case *types.Named:
+			if seen[u.String()] {
+				return nil
+			}
+			seen[u.String()] = true
+			st, ok := u.Underlying().(*types.Struct)
+			if !ok {
+				return nil
+			}
+			var out []tf
+			for i := 0; i < st.NumFields(); i++ {
+				ft := st.Field(i).Type()
+				if typeName(ft) == "time.Time" {
+					out = append(out, tf{u.Obj().Name(), st.Field(i).Name()})
+					continue
+				}
+				out = append(out, timeFields(ft, depth+1, seen)...)
+			}
+			return out
+		}
+		return nil
+	}
+	n := 0
+	for _, g := range fs {
+		if g.Body == nil || !g.isHandWritten() || (g.pkgName() != "keeper" && g.pkgName() != "service" && g.pkgName() != "types") {
+			continue
+		}
+		info := g.Pkg.TypesInfo
+		var fields []tf
+		ast.Inspect(g.Body, func(nd ast.Node) bool {
+			if lit, isLit := nd.(*ast.FuncLit); isLit && lit != g.Lit {
+				return false
+			}
+			call, ok := nd.(*ast.CallExpr)
+			if !ok || len(call.Args) != 2 {
+				return true
+			}
+			if fo, _ := typeutil.Callee(info, call).(*types.Func); fo != nil && fo.Pkg() != nil && fo.Pkg().Path() == "encoding/json" && fo.Name() == "Unmarshal" {
+				fields = append(fields, timeFields(info.TypeOf(call.Args[1]), 0, map[string]bool{})...)
+			}
+			return true
+		})
+		if len(fields) == 0 {
+			continue
+		}
+		// a helper that only decodes and hands the decoded record back leaves the test to its callers
+		var callers []*Func
+		handsBack := false
+		for _, pa := range c.P.PathsOf(g) {
+			if pa.OK() && len(pa.Ret) > 0 && pa.Ret[0].ContainsOp("encoding/json.Unmarshal") {
+				handsBack = true
+			}
+		}
+		if handsBack && g.Obj != nil {
+			for _, h := range fs {
+				if h.Body == nil || h == g {
+					continue
+				}
+				hit := false
+				ast.Inspect(h.Body, func(nd ast.Node) bool {
+					if call, ok := nd.(*ast.CallExpr); ok {
+						if fo, _ := typeutil.Callee(h.Pkg.TypesInfo, call).(*types.Func); fo != nil && fo == g.Obj {
+							hit = true
+						}
+					}
+					return true
+				})
+				if hit {
+					callers = append(callers, h)
+				}
+			}
+		}
+		eval := func(h *Func, op string) (bool, token.Pos) {
+			mentions := func(t *Term) bool { return t.ContainsOp(op) }
+			rejects := false
+			unchecked := token.NoPos
+			for _, pa := range c.P.PathsOf(h) {
+				var last *Event
+				tested, walked := false, false
+				for _, ev := range pa.Events {
+					switch ev.Kind {
+					case EvFact:
+						last = ev
+						if mentions(ev.Fact.T) {
+							tested = true
+						}
+					case EvLoop:
+						walked = true
+					}
+				}
+				if pa.Exit == ExitRevert && last != nil && mentions(last.Fact.T) {
+					rejects = true
+				}
+				if pa.OK() && walked && !tested {
+					unchecked = pa.RetPos
+				}
+			}
+			return rejects, unchecked
+		}
+		for _, f := range fields {
+			op := "." + f.strct + "." + f.fld
+			hosts := []*Func{g}
+			if r, u := eval(g, op); !(r && u == token.NoPos) && len(callers) > 0 {
+				all := true
+				for _, h := range callers {
+					if r2, u2 := eval(h, op); !(r2 && u2 == token.NoPos) {
+						all = false
+					}
+				}
+				if all {
+					hosts = callers // the test lives in every caller; otherwise the decoder is the construct to report
+				}
+			}
+			for _, h := range hosts {
+				n++
+				rejects, unchecked := eval(h, op)
+				pos := h.Body.Pos()
+				if unchecked != token.NoPos {
+					pos = unchecked
+				}
+				c.req(rejects && unchecked == token.NoPos, "C20.3", unitConstruct(h, "decoded-time-tested:"+f.strct+"."+f.fld), pos,
+					"a time decoded from JSON text ("+f.strct+"."+f.fld+") is tested, with a rejecting exit, before the record holding it can reach the store's Must-marshal"+
+						condStr(!rejects, ": no rejecting exit tests it")+condStr(unchecked != token.NoPos, ": a committed path walks the decoded list without testing it"))
+			}
+		}
+	}
+	c.Sites += n
+	c.req(n >= 1, "C20.3", "decoded-times", token.NoPos, fmt.Sprintf("%d time fields of JSON-decoded types in handler-reachable code", n))
 }
